@@ -578,8 +578,13 @@ func Alphabet() []string {
 
 // ---- one run ----------------------------------------------------------------------------------------
 
+// runMu serialises runs process-wide: callbacks and the state hook are attributed to the run in progress.
+var runMu sync.Mutex
+
 // Run executes one script and returns its trace.
 func (e *Explorer) Run(script []string) *Trace {
+	runMu.Lock()
+	defer runMu.Unlock()
 	tr := &Trace{Config: e.Cfg, Script: append([]string{}, script...), ClosedAfter: -1, TLSFromC2S: -1, TLSFromS2C: -1, ServerNode: ServerNodeStr}
 	ca, cb := faultconn.Pair(faultconn.Options{})
 	tcfg := &lime.TCPConfig{}
@@ -622,7 +627,7 @@ func (e *Explorer) Run(script []string) *Trace {
 		defer rs.mu.Unlock()
 		stateEst, recvEst := false, false
 		for _, e := range tr.Events {
-			if e.T == "state" && e.To == "established" {
+			if e.T == "state" && e.To == "established" && e.SessionID == tr.SessionID && tr.SessionID != "" {
 				stateEst = true
 			}
 			if e.T == "recv" && e.Env != nil && e.Env["state"] == "established" {
@@ -635,7 +640,7 @@ func (e *Explorer) Run(script []string) *Trace {
 		rs.mu.Lock()
 		defer rs.mu.Unlock()
 		for _, e := range tr.Events {
-			if (e.T == "state" && e.To == "established") || (e.T == "recv" && e.Env != nil && e.Env["state"] == "established") {
+			if (e.T == "state" && e.To == "established" && e.SessionID == tr.SessionID && tr.SessionID != "") || (e.T == "recv" && e.Env != nil && e.Env["state"] == "established") {
 				return true
 			}
 		}
